@@ -228,6 +228,42 @@ pub fn cases(tier: &str, seed: u64, focus: &str) -> Vec<RsCase> {
                 }
             }
         }
+        // within capacity, syndrome vector of low rank at the start: u errors plus a second pattern whose first 2u+m syndromes
+        // vanish.  The Hankel matrices H_{u+1}..H_{u+m} are then singular and H_{u+m+1} is regular again - the decoder's
+        // "singular step of length m" (m = 1 is what random errors produce, m >= 2 is reached only this way).
+        for s in &sizes {
+            let t = s.ec / 2;
+            if t < 5 {
+                continue;
+            }
+            let reps = if thorough { 6 } else { 2 };
+            for b in 0..s.blocks {
+                let pos = s.block_positions(b);
+                let n = pos.len();
+                for (u, m) in [(1usize, 1usize), (1, 2), (1, 3), (1, 4), (1, 6), (2, 1), (2, 2), (2, 3), (3, 1), (3, 2), (4, 2), (5, 3)] {
+                    let z = 2 * u + m;
+                    for extra in [0usize, 1, 3] {
+                        let w2 = z + 1 + extra;
+                        if u + w2 > t || u + w2 > n {
+                            continue;
+                        }
+                        for _ in 0..reps {
+                            let idxs = choose(&mut rng, &(0..n).collect::<Vec<_>>(), u + w2);
+                            let degs: Vec<usize> = idxs[u..].iter().map(|i| n - 1 - i).collect();
+                            let free: Vec<u8> = (0..w2 - z).map(|_| nz(&mut rng)).collect();
+                            if let Some(y) = gf.values_with_zero_syndromes(&degs, z, &free) {
+                                let mut errs: Vec<(usize, u8)> = idxs[..u].iter().map(|i| (pos[*i], nz(&mut rng))).collect();
+                                errs.extend(idxs[u..].iter().zip(y.iter()).map(|(i, v)| (pos[*i], *v)));
+                                out.push(RsCase { stratum: "lowRankPrefix", size: s, data: Some(rand_vec(&mut rng, s.data)), errs, recv: None, correct: true });
+                            }
+                        }
+                    }
+                }
+                if s.blocks > 2 && b == 1 && !thorough {
+                    break;
+                }
+            }
+        }
         // 10x10 (t = 2): every position pair, second value chosen so that S1 = 0
         let s10 = by_name("Square10").unwrap();
         for i in 0..8 {
@@ -256,6 +292,9 @@ pub fn cases(tier: &str, seed: u64, focus: &str) -> Vec<RsCase> {
 
     // ---------------------------------------------------------------- C09 / C05: beyond capacity
     let c05 = focus == "C05";
+    if focus == "C09" {
+        thin_storm(thorough, seed, &gf, &mut out);
+    }
     for s in &sizes {
         let k = s.ec;
         let t = k / 2;
@@ -404,6 +443,88 @@ pub fn cases(tier: &str, seed: u64, focus: &str) -> Vec<RsCase> {
         }
     }
     out
+}
+
+/// C09 storm: for the small single-block sizes, tens of millions of received words drawn from thin sets of the syndrome
+/// space (prescribed zero patterns at the start of the syndrome vector, the rest uniform).  Only the words on which the
+/// implementation reports success (or panics) are kept - C09 speaks about reported successes only - and each of
+/// those becomes an ordinary recorded case that the specification judges.  Deterministic for a given seed.
+fn thin_storm(thorough: bool, seed: u64, gf: &Gf, out: &mut Vec<RsCase>) {
+    use datamatrix::errorcode;
+    let masks: [&[usize]; 10] = [&[], &[0], &[1], &[0, 1], &[2], &[0, 2], &[1, 2], &[0, 1, 2], &[3], &[0, 1, 2, 3]];
+    const THREADS: u64 = 16;
+    for s in CATALOGUE.iter().filter(|s| s.blocks == 1 && s.total() <= 24) {
+        let size = size_by_name(s.name).unwrap();
+        let k = s.ec;
+        let n = s.total();
+        // e = M * syn: invert the k x k matrix (alpha^{j d}), j = 1..k, d = 0..k-1, by solving for the unit vectors
+        let cols: Vec<Vec<u8>> = (0..k)
+            .map(|j| {
+                let mut unit = vec![0u8; k];
+                unit[j] = 1;
+                gf.solve_syndromes(&unit).expect("vandermonde")
+            })
+            .collect();
+        let c0: Vec<u8> = {
+            let data: Vec<u8> = (0..s.data).map(|i| (i * 29 + 7) as u8).collect();
+            let mut w = data.clone();
+            w.extend(errorcode::encode_error(&data, size));
+            w
+        };
+        for (mi, mask) in masks.iter().enumerate() {
+            if mask.iter().any(|z| *z >= k) {
+                continue;
+            }
+            let t = k / 2;
+            // the thin sets with t leading zeros (the decoder's start order is then maximal) get the largest share
+            let weight: u64 = if t <= 3 && **mask == [0, 1] { 40 } else if t <= 3 && mask.len() <= 3 && !mask.is_empty() && mask[0] <= 1 { 4 } else { 1 };
+            let per_thread: u64 = weight * if thorough { 500_000 } else { 60_000 };
+            let found: Vec<Vec<u8>> = std::thread::scope(|sc| {
+                let handles: Vec<_> = (0..THREADS)
+                    .map(|ti| {
+                        let cols = &cols;
+                        let c0 = &c0;
+                        sc.spawn(move || {
+                            let mut rng = Rng::new(seed, 0x5709_0000 + (s.total() as u64) * 4096 + (mi as u64) * 64 + ti);
+                            let mut keep: Vec<Vec<u8>> = Vec::new();
+                            let mut syn = vec![0u8; k];
+                            for _ in 0..per_thread {
+                                for (j, x) in syn.iter_mut().enumerate() {
+                                    *x = if mask.contains(&j) { 0 } else { rng.byte() };
+                                }
+                                let mut w = c0.clone();
+                                for (j, sj) in syn.iter().enumerate() {
+                                    if *sj != 0 {
+                                        for d in 0..k {
+                                            w[n - 1 - d] ^= gf.mul(cols[j][d], *sj);
+                                        }
+                                    }
+                                }
+                                if w == *c0 {
+                                    continue;
+                                }
+                                let orig = w.clone();
+                                let r = std::panic::catch_unwind(std::panic::AssertUnwindSafe(|| errorcode::decode_error(&mut w, size).is_ok()));
+                                if !matches!(r, Ok(false)) {
+                                    keep.push(orig);
+                                    if keep.len() >= 60 {
+                                        break;
+                                    }
+                                }
+                            }
+                            keep
+                        })
+                    })
+                    .collect();
+                handles.into_iter().flat_map(|h| h.join().unwrap_or_default()).collect()
+            });
+            for w in found {
+                let mut spec = vec![0xFFu8, 0xFF, 0xFF];
+                spec.extend(w);
+                out.push(RsCase { stratum: "thinStorm", size: s, data: None, errs: vec![], recv: Some(spec), correct: true });
+            }
+        }
+    }
 }
 
 pub fn run_case(idx: usize, c: &RsCase, profile: &str) -> Value {
